@@ -77,3 +77,24 @@ def bounded_pure(tier, what, name, rule, seed=0, exhaustive=True):
         out["error"] = r.get("search_error", "no result")
         out["violations"] = []
     return out
+
+
+def bounded_harness(tier, prop, name, rule, seed=0, focus="", segonly=False, budget=None, ignore=()):
+    """sampled native scenarios on the real code (random user-action / paint / undo / redo walks with the
+    property's oracle after every step); a bounded stand-in / cross-check, never counted as proved"""
+    budget = budget or (60 if tier == "thorough" else 12)
+    args = ["--prop", prop, "--seed", str(seed), "--budget", str(budget)]
+    if focus:
+        args += ["--focus", focus]
+    if segonly:
+        args += ["--segonly"]
+    for pat in ignore:
+        args += ["--ignore", pat]
+    r = run_harness("harness.py", args, budget + 120)
+    out = {"name": name, "rule": rule + f"; random scenarios for {budget} s (seeded)", "bound": {"seconds": budget}, "cases": r.get("scenarios_tried", 0),
+           "nontrivial": r.get("scenarios_tried", 0), "exhaustive": False, "violations": [], "known_seen": r.get("known", [])}
+    if r.get("found"):
+        out["violations"] = [{"found": True, "scenario": r["scenario"], "violations": r["violations"], "script": "harness.py"}]
+    if "scenarios_tried" not in r:
+        out["error"] = r.get("search_error", "no result")
+    return out
